@@ -21,6 +21,7 @@ Ref == [wf |-> "", st |-> <<>>]
 Ideal == [wf |-> "", st |-> <<>>]
 Racy == {}
 ExecMax == <<>>
+RefViews == <<>>
 CheckProps == {}
 MaxDepth == 400
 ====
